@@ -109,9 +109,13 @@ pub fn run(ctx: &mut Ctx) {
         let mut nss = gen_namespaces(ctx);
         // element sizes that make the IssuerSignedItemBytes cross every CBOR length-header boundary (23/24, 255/256, 65535/65536 bytes):
         // a sweep of consecutive value lengths, so that items of EXACTLY the boundary sizes are issued (quick: once; thorough: under every digest algorithm)
-        if k % 20 == 7 && (ctx.thorough || k == 7) {
+        // (the 64 KiB window is the costly part - the model hashes every item again with its own SHA-2 - so it is kept to the
+        // lengths at which the whole item crosses 65535/65536, 68..100 bytes below, and the sweep runs once in the quick tier and
+        // six times, twice per digest algorithm, in the thorough tier)
+        if k % 20 == 7 && (k == 7 || (ctx.thorough && k < 120)) {
             let mut sizes = BTreeMap::new();
-            for b in [24usize, 256, 65536] { for l in b.saturating_sub(if b > 1000 { 130 } else { 110 })..=b + 2 { sizes.insert(format!("sz{l}"), Value::Bytes(vec![(l % 251) as u8; l])); } }
+            for b in [24usize, 256] { for l in b.saturating_sub(110)..=b + 2 { sizes.insert(format!("sz{l}"), Value::Bytes(vec![(l % 251) as u8; l])); } }
+            for l in (65536usize - 100..=65536 - 68).chain(65535..=65538) { sizes.insert(format!("sz{l}"), Value::Bytes(vec![(l % 251) as u8; l])); }
             nss.insert("ns.sizes".to_string(), sizes);
         }
         let alg = [DigestAlgorithm::SHA256, DigestAlgorithm::SHA384, DigestAlgorithm::SHA512][k % 3];
